@@ -35,8 +35,9 @@ VARIABLES phase,    \* "build" "run" "done"
           rec,      \* the Recursion option
           stack,    \* frames [code, fn, d, pc]
           log,      \* function entries so far
-          fail, failfn
-vars == <<phase, edges, cur, nf, rec, stack, log, fail, failfn>>
+          fail, failfn, \* the run failed on entry to function failfn ...
+          failkind      \* ... through a call site of this kind
+vars == <<phase, edges, cur, nf, rec, stack, log, fail, failfn, failkind>>
 
 Max2(a, b) == IF a > b THEN a ELSE b
 Min2(a, b) == IF a < b THEN a ELSE b
@@ -48,55 +49,55 @@ FCode(i) == <<"F", i, 0>>
 LCode(i, pc) == <<"L", i, pc>>
 
 Init == /\ phase = "build" /\ edges = <<>> /\ cur = <<>> /\ nf = 1 /\ rec \in BOOLEAN
-        /\ stack = <<>> /\ log = <<>> /\ fail = FALSE /\ failfn = 0
+        /\ stack = <<>> /\ log = <<>> /\ fail = FALSE /\ failfn = 0 /\ failkind = "none"
 
 AddEdge(t, k) ==
   /\ phase = "build" /\ Len(edges) < nf /\ Len(cur) < MaxOut /\ NumEdges < MaxE
   /\ t \in 1..Min2(nf + 1, MaxF)
   /\ cur' = Append(cur, <<t, k>>) /\ nf' = Max2(nf, t)
-  /\ UNCHANGED <<phase, edges, rec, stack, log, fail, failfn>>
+  /\ UNCHANGED <<phase, edges, rec, stack, log, fail, failfn, failkind>>
 
 CloseFn ==
   /\ phase = "build" /\ Len(edges) < nf
   /\ edges' = Append(edges, cur) /\ cur' = <<>>
-  /\ UNCHANGED <<phase, nf, rec, stack, log, fail, failfn>>
+  /\ UNCHANGED <<phase, nf, rec, stack, log, fail, failfn, failkind>>
 
 Start ==
   /\ phase = "build" /\ Len(edges) = nf
   /\ phase' = "run"
   /\ stack' = <<[code |-> FCode(1), fn |-> 1, d |-> Depth, pc |-> 1]>>
   /\ log' = <<1>>
-  /\ UNCHANGED <<edges, cur, nf, rec, fail, failfn>>
+  /\ UNCHANGED <<edges, cur, nf, rec, fail, failfn, failkind>>
 
 Active == {stack[i].code : i \in DOMAIN stack}
 
 \* the caller's frame (top) has advanced to pc + 1; enter declaration `code`
-Enter(code, fn, d, isFn) ==
+Enter(code, fn, d, isFn, kind) ==
   LET top == stack[Len(stack)]
       caller == [top EXCEPT !.pc = top.pc + 1]
       below == SubSeq(stack, 1, Len(stack) - 1)
   IN IF ~rec /\ code \in Active
-     THEN /\ fail' = TRUE /\ failfn' = (IF isFn THEN fn ELSE 0) /\ phase' = "done"
+     THEN /\ fail' = TRUE /\ failfn' = (IF isFn THEN fn ELSE 0) /\ failkind' = kind /\ phase' = "done"
           /\ stack' = <<>> /\ UNCHANGED log
      ELSE /\ stack' = below \o <<caller, [code |-> code, fn |-> fn, d |-> d, pc |-> 1]>>
           /\ log' = (IF isFn THEN Append(log, fn) ELSE log)
-          /\ UNCHANGED <<fail, failfn, phase>>
+          /\ UNCHANGED <<fail, failfn, failkind, phase>>
 
 Pop == /\ stack' = SubSeq(stack, 1, Len(stack) - 1)
        /\ phase' = (IF Len(stack) = 1 THEN "done" ELSE "run")
-       /\ UNCHANGED <<log, fail, failfn>>
+       /\ UNCHANGED <<log, fail, failfn, failkind>>
 
 Step ==
   /\ phase = "run"
   /\ LET top == stack[Len(stack)] IN
      IF top.code[1] = "L"
      THEN \* the lambda of a call site: calls its target once, then returns
-          IF top.pc = 1 THEN Enter(FCode(top.fn), top.fn, top.d, TRUE) ELSE Pop
+          IF top.pc = 1 THEN Enter(FCode(top.fn), top.fn, top.d, TRUE, "lambda") ELSE Pop
      ELSE IF top.d = 0 \/ top.pc > Len(edges[top.fn]) THEN Pop
      ELSE LET e == edges[top.fn][top.pc] IN
           IF e[2] = "lambda"
-          THEN Enter(LCode(top.fn, top.pc), e[1], top.d - 1, FALSE)
-          ELSE Enter(FCode(e[1]), e[1], top.d - 1, TRUE)      \* call, twice, sorted, min, max
+          THEN Enter(LCode(top.fn, top.pc), e[1], top.d - 1, FALSE, "lambda")
+          ELSE Enter(FCode(e[1]), e[1], top.d - 1, TRUE, e[2])      \* call, twice, sorted, min, max
   /\ UNCHANGED <<edges, cur, nf, rec>>
 
 Next == \/ \E t \in 1..MaxF, k \in Kinds : AddEdge(t, k)
@@ -110,5 +111,5 @@ StackBounded == Len(stack) <= 2 * (Depth + 1)
 FailsOnlyWhenOff == fail => ~rec /\ failfn \in 1..nf
 
 Emit == phase = "done" =>
-        PrintT("G" \o ToJson([edges |-> edges, rec |-> rec, fail |-> fail, failfn |-> failfn, log |-> log]))
+        PrintT("G" \o ToJson([edges |-> edges, rec |-> rec, fail |-> fail, failfn |-> failfn, failkind |-> failkind, log |-> log]))
 =============================================================================
